@@ -267,28 +267,25 @@ func c13list(xs []int64) string {
 	return strings.Join(parts, ",")
 }
 
-// end of a case: stop the goroutines that are still waiting and wait until they are gone
-var c13leaks = 0
+// goroutines of earlier cases that ignored the cancellation (only under a defect of the code)
+var c13leaks, c13leakedBase = 0, 0
 
+const c13maxLeaks = 150
+
+// end of a case: stop the goroutines that are still waiting and wait until they are gone
 func (r *c13run) finish() (left int) {
 	r.cancel()
-	// goroutines that ignore the cancellation (only under a defect) are waited for a few times only
 	wait := 50 * time.Millisecond
 	if c13leaks > 20 {
-		wait = 0
+		wait = time.Millisecond
 	}
-	defer func() {
-		if left != 0 {
-			c13leaks++
-		}
-	}()
 	deadline := time.Now().Add(wait)
 	for i := 0; ; i++ {
 		_, n, _ := c13goroutines()
-		if n == 0 {
+		if n <= c13leakedBase {
 			return 0
 		}
-		left = n
+		left = n - c13leakedBase
 		if !r.closed {
 			select {
 			case _, ok := <-r.ch:
@@ -298,7 +295,9 @@ func (r *c13run) finish() (left int) {
 			default:
 			}
 		}
-		if i > 100 && time.Now().After(deadline) {
+		if i > 20 && time.Now().After(deadline) {
+			c13leakedBase = n
+			c13leaks++
 			return
 		}
 		runtime.Gosched()
@@ -445,7 +444,7 @@ func c13enumerate(out *rec.Out, d c13def, grid []int64, maxLen int, keep func() 
 	emit := func() {
 		// cancel positions: none, or before operation p (p = len: after the last)
 		for p := -1; p <= len(seq); p++ {
-			if !keep() {
+			if !keep() || c13leaks > c13maxLeaks {
 				continue
 			}
 			ops := make([]c13op, 0, len(seq)+1)
@@ -496,7 +495,7 @@ func c13(out *rec.Out, rng *rec.Rng, tier string, stats map[string]int) {
 	if tier == "thorough" {
 		N = 40000
 	}
-	for k := 0; k < N; k++ {
+	for k := 0; k < N && c13leaks <= c13maxLeaks; k++ {
 		d := defs[rng.Intn(len(defs))]
 		grid := c13grid(d)
 		n := 1 + rng.Intn(8)
@@ -546,7 +545,7 @@ func c13(out *rec.Out, rng *rec.Rng, tier string, stats map[string]int) {
 	if tier == "thorough" {
 		R = 3000
 	}
-	for k := 0; k < R; k++ {
+	for k := 0; k < R && c13leaks <= c13maxLeaks; k++ {
 		d := defs[rng.Intn(len(defs))]
 		grid := c13grid(d)
 		n := rng.Intn(3)
@@ -569,6 +568,10 @@ func c13(out *rec.Out, rng *rec.Rng, tier string, stats map[string]int) {
 		ops = append(ops, c13op{"set", x + 500}, c13op{"set", x + 1000})
 		c13case(out, d, ops, stats)
 		stats["race_cases"]++
+	}
+	if c13leaks > c13maxLeaks {
+		// every leaked goroutine makes looking at the goroutine states slower: stop generating
+		stats["stopped_after_leaking_cases"] = c13leaks
 	}
 }
 
